@@ -1,1 +1,340 @@
-//! (under construction)
+//! Brute-force references for the generator properties: n-queens, sudoku, cliques, k-colouring.
+//! Independent of the generators' encodings.
+
+/// all placements of n non-attacking queens; result[r] = column of the queen in row r
+pub fn queens_all(n: usize) -> Vec<Vec<usize>> {
+    fn go(n: usize, row: usize, cols: &mut Vec<usize>, out: &mut Vec<Vec<usize>>) {
+        if row == n {
+            out.push(cols.clone());
+            return;
+        }
+        for c in 0..n {
+            let ok = cols.iter().enumerate().all(|(r, cc)| *cc != c && (row - r) != (if c > *cc { c - cc } else { cc - c }));
+            if ok {
+                cols.push(c);
+                go(n, row + 1, cols, out);
+                cols.pop();
+            }
+        }
+    }
+    let mut out = Vec::new();
+    go(n, 0, &mut Vec::new(), &mut out);
+    out
+}
+
+pub fn attacks(n: usize, a: usize, b: usize) -> bool {
+    let (ra, ca, rb, cb) = (a / n, a % n, b / n, b % n);
+    a != b && (ra == rb || ca == cb || ra.abs_diff(rb) == ca.abs_diff(cb))
+}
+
+pub fn is_queens_solution(n: usize, cols: &[usize]) -> bool {
+    if cols.len() != n {
+        return false;
+    }
+    for r1 in 0..n {
+        if cols[r1] >= n {
+            return false;
+        }
+        for r2 in (r1 + 1)..n {
+            if cols[r1] == cols[r2] || (r2 - r1) == cols[r1].abs_diff(cols[r2]) {
+                return false;
+            }
+        }
+    }
+    true
+}
+
+/// explicit construction of one solution for n >= 4 (verified by the caller with is_queens_solution)
+pub fn queens_construct(n: usize) -> Option<Vec<usize>> {
+    if n == 1 {
+        return Some(vec![0]);
+    }
+    if n < 4 {
+        return None;
+    }
+    let mut evens: Vec<usize> = (1..=n).filter(|x| x % 2 == 0).collect();
+    let mut odds: Vec<usize> = (1..=n).filter(|x| x % 2 == 1).collect();
+    match n % 6 {
+        2 => {
+            // swap 1 and 3, move 5 to the end
+            if let (Some(p1), Some(p3)) = (odds.iter().position(|x| *x == 1), odds.iter().position(|x| *x == 3)) {
+                odds.swap(p1, p3);
+            }
+            if let Some(p5) = odds.iter().position(|x| *x == 5) {
+                let v = odds.remove(p5);
+                odds.push(v);
+            }
+        }
+        3 => {
+            if let Some(p2) = evens.iter().position(|x| *x == 2) {
+                let v = evens.remove(p2);
+                evens.push(v);
+            }
+            for k in [1usize, 3] {
+                if let Some(p) = odds.iter().position(|x| *x == k) {
+                    let v = odds.remove(p);
+                    odds.push(v);
+                }
+            }
+        }
+        _ => {}
+    }
+    let cols: Vec<usize> = evens.into_iter().chain(odds).map(|c| c - 1).collect();
+    if is_queens_solution(n, &cols) {
+        Some(cols)
+    } else {
+        None
+    }
+}
+
+// ------------------------------------------------------------------------------------- sudoku
+
+/// all completions of an r^2 x r^2 grid (0 = blank), up to `limit` (returns None if more)
+pub fn sudoku_all(root: usize, givens: &[usize], limit: usize) -> Option<Vec<Vec<usize>>> {
+    let sq = root * root;
+    let cells = sq * sq;
+    let mut grid: Vec<usize> = (0..cells).map(|i| givens.get(i).copied().unwrap_or(0)).collect();
+    // givens must be consistent themselves
+    fn conflict(grid: &[usize], root: usize, i: usize, d: usize) -> bool {
+        let sq = root * root;
+        let (r, c) = (i / sq, i % sq);
+        for k in 0..sq {
+            if k != c && grid[r * sq + k] == d {
+                return true;
+            }
+            if k != r && grid[k * sq + c] == d {
+                return true;
+            }
+        }
+        let (br, bc) = (r / root * root, c / root * root);
+        for dr in 0..root {
+            for dc in 0..root {
+                let j = (br + dr) * sq + bc + dc;
+                if j != i && grid[j] == d {
+                    return true;
+                }
+            }
+        }
+        false
+    }
+    for i in 0..cells {
+        if grid[i] != 0 && (grid[i] > sq || conflict(&grid, root, i, grid[i])) {
+            return Some(vec![]);
+        }
+    }
+    fn go(grid: &mut Vec<usize>, root: usize, out: &mut Vec<Vec<usize>>, limit: usize) -> bool {
+        let sq = root * root;
+        // most constrained blank cell
+        let mut best: Option<(usize, Vec<usize>)> = None;
+        for i in 0..grid.len() {
+            if grid[i] == 0 {
+                let cands: Vec<usize> = (1..=sq).filter(|d| !conflict(grid, root, i, *d)).collect();
+                if cands.is_empty() {
+                    return true;
+                }
+                if best.as_ref().map(|b| cands.len() < b.1.len()).unwrap_or(true) {
+                    let single = cands.len() == 1;
+                    best = Some((i, cands));
+                    if single {
+                        break;
+                    }
+                }
+            }
+        }
+        match best {
+            None => {
+                if out.len() >= limit {
+                    return false;
+                }
+                out.push(grid.clone());
+                true
+            }
+            Some((i, cands)) => {
+                for d in cands {
+                    grid[i] = d;
+                    if !go(grid, root, out, limit) {
+                        grid[i] = 0;
+                        return false;
+                    }
+                }
+                grid[i] = 0;
+                true
+            }
+        }
+    }
+    let mut out = Vec::new();
+    if go(&mut grid, root, &mut out, limit) {
+        Some(out)
+    } else {
+        None
+    }
+}
+
+/// up to `k` completions (stops searching once k are found)
+pub fn sudoku_some(root: usize, givens: &[usize], k: usize) -> Vec<Vec<usize>> {
+    // inconsistent givens have no completion (sudoku_all with limit 0 answers Some([]) exactly then)
+    if let Some(v) = sudoku_all(root, givens, 0) {
+        if v.is_empty() {
+            // either inconsistent givens or no solution at all
+            return vec![];
+        }
+    }
+    sudoku_first_k(root, givens, k)
+}
+
+fn sudoku_first_k(root: usize, givens: &[usize], k: usize) -> Vec<Vec<usize>> {
+    let sq = root * root;
+    let cells = sq * sq;
+    let mut grid: Vec<usize> = (0..cells).map(|i| givens.get(i).copied().unwrap_or(0)).collect();
+    fn ok(grid: &[usize], root: usize, i: usize, d: usize) -> bool {
+        let sq = root * root;
+        let (r, c) = (i / sq, i % sq);
+        for j in 0..sq {
+            if (j != c && grid[r * sq + j] == d) || (j != r && grid[j * sq + c] == d) {
+                return false;
+            }
+        }
+        let (br, bc) = (r / root * root, c / root * root);
+        for dr in 0..root {
+            for dc in 0..root {
+                let j = (br + dr) * sq + bc + dc;
+                if j != i && grid[j] == d {
+                    return false;
+                }
+            }
+        }
+        true
+    }
+    fn go(grid: &mut Vec<usize>, root: usize, out: &mut Vec<Vec<usize>>, k: usize) {
+        if out.len() >= k {
+            return;
+        }
+        let sq = root * root;
+        let mut best: Option<(usize, Vec<usize>)> = None;
+        for i in 0..grid.len() {
+            if grid[i] == 0 {
+                let cands: Vec<usize> = (1..=sq).filter(|d| ok(grid, root, i, *d)).collect();
+                if cands.is_empty() {
+                    return;
+                }
+                if best.as_ref().map(|b| cands.len() < b.1.len()).unwrap_or(true) {
+                    let single = cands.len() == 1;
+                    best = Some((i, cands));
+                    if single {
+                        break;
+                    }
+                }
+            }
+        }
+        match best {
+            None => out.push(grid.clone()),
+            Some((i, cands)) => {
+                for d in cands {
+                    grid[i] = d;
+                    go(grid, root, out, k);
+                    if out.len() >= k {
+                        break;
+                    }
+                }
+                grid[i] = 0;
+            }
+        }
+    }
+    let mut out = Vec::new();
+    go(&mut grid, root, &mut out, k);
+    out
+}
+
+// ------------------------------------------------------------------------------------- graphs
+
+/// adjacency over vertex indices; cliques as bitmasks
+pub fn all_cliques(nv: usize, adj: &dyn Fn(usize, usize) -> bool) -> Vec<u64> {
+    let mut out = Vec::new();
+    for s in 0..(1u64 << nv) {
+        let mut ok = true;
+        'outer: for a in 0..nv {
+            if (s >> a) & 1 == 0 {
+                continue;
+            }
+            for b in (a + 1)..nv {
+                if (s >> b) & 1 == 1 && !adj(a, b) {
+                    ok = false;
+                    break 'outer;
+                }
+            }
+        }
+        if ok {
+            out.push(s);
+        }
+    }
+    out
+}
+
+pub fn max_cliques(nv: usize, adj: &dyn Fn(usize, usize) -> bool) -> Vec<u64> {
+    let all = all_cliques(nv, adj);
+    let best = all.iter().map(|s| s.count_ones()).max().unwrap_or(0);
+    all.into_iter().filter(|s| s.count_ones() == best).collect()
+}
+
+/// is the graph on nv vertices (edges as index pairs) properly colourable with k colours?
+pub fn colourable(nv: usize, edges: &[(usize, usize)], k: usize) -> bool {
+    fn go(v: usize, nv: usize, edges: &[(usize, usize)], k: usize, col: &mut Vec<usize>) -> bool {
+        if v == nv {
+            return true;
+        }
+        for c in 0..k {
+            let ok = edges.iter().all(|(a, b)| {
+                let other = if *a == v && *b < v {
+                    Some(*b)
+                } else if *b == v && *a < v {
+                    Some(*a)
+                } else {
+                    None
+                };
+                other.map(|o| col[o] != c).unwrap_or(true)
+            });
+            if ok {
+                col.push(c);
+                if go(v + 1, nv, edges, k, col) {
+                    return true;
+                }
+                col.pop();
+            }
+        }
+        false
+    }
+    go(0, nv, edges, k, &mut Vec::new())
+}
+
+#[cfg(test)]
+mod tests {
+    use super::*;
+
+    #[test]
+    fn queens_counts() {
+        assert_eq!(queens_all(1).len(), 1);
+        assert_eq!(queens_all(2).len(), 0);
+        assert_eq!(queens_all(3).len(), 0);
+        assert_eq!(queens_all(4).len(), 2);
+        assert_eq!(queens_all(6).len(), 4);
+        assert_eq!(queens_all(8).len(), 92);
+        for n in 4..200 {
+            assert!(queens_construct(n).is_some(), "construction failed for n = {}", n);
+        }
+    }
+
+    #[test]
+    fn sudoku_counts() {
+        assert_eq!(sudoku_all(1, &[], 10).unwrap().len(), 1);
+        assert_eq!(sudoku_all(2, &[], 1000).unwrap().len(), 288);
+        assert_eq!(sudoku_all(2, &[1, 1], 1000).unwrap().len(), 0);
+    }
+
+    #[test]
+    fn colouring() {
+        assert!(colourable(3, &[(0, 1), (1, 2), (0, 2)], 3));
+        assert!(!colourable(3, &[(0, 1), (1, 2), (0, 2)], 2));
+        assert!(colourable(0, &[], 0));
+        assert!(!colourable(1, &[], 0));
+    }
+}
